@@ -209,6 +209,10 @@ def _objects():
     O['yvec'] = lambda: np.linspace(-1.0, 2.0, 25)
     O['B_vec'] = lambda: fem.Basis(fem.MeshTri().refined(1), fem.ElementVector(fem.ElementTriP1()))
     O['hermite'] = lambda: fem.ElementLineHermite()
+    # a segment mesh with a cell listed right to left, and ONE isoparametric mapping object shared by every basis on it
+    O['line_rl'] = lambda: fem.MeshLine(np.array([[0., 1., 0.375, 0.75]]), np.array([[0, 2], [3, 2], [1, 3]]).T)
+    O['map_rl'] = lambda g: fem.MappingIsoparametric(g('line_rl'), fem.ElementLineP1())
+    O['lp2'] = lambda: fem.ElementLineP2()
     O['form_mass'] = lambda: fem.BilinearForm(lambda u, v, w: u * v)
     O['B_l2'] = lambda: fem.Basis(fem.MeshLine(np.linspace(0, 1, 4)), fem.ElementLineP2())
     O['B_q2'] = lambda: fem.Basis(fem.MeshQuad().refined(1), fem.ElementQuad2())
@@ -292,6 +296,14 @@ def _ops():
         ('invDF', ['map_t', 'X3'], lambda mp, X: mp.invDF(X)),
         ('detDF', ['map_c', 'X1'], lambda mp, X: mp.detDF(X)),
         ('DF64', ['map_c', 'X2'], lambda mp, X: mp.DF(X, tind=tind64)),
+    ]
+    conv = fem.BilinearForm(lambda u, v, w: u.grad[0] * v)
+    G['map'] += [
+        ('conv_p1', ['line_rl', 'map_rl', 'lp1'], lambda m, mp, e: conv.assemble(fem.Basis(m, e, mapping=mp, intorder=4))),
+        ('conv_p2', ['line_rl', 'map_rl', 'lp2'], lambda m, mp, e: conv.assemble(fem.Basis(m, e, mapping=mp, intorder=4))),
+        ('grad_p2', ['line_rl', 'map_rl', 'lp2'],
+         lambda m, mp, e: fem.Basis(m, e, mapping=mp, intorder=4).interpolate(np.arange(7, dtype=float) ** 2).grad),
+        ('invDF_rl', ['map_rl', 'S1'], lambda mp, X: [mp.invDF(X), mp.detDF(X), mp.DF(X)]),
     ]
     G['mesh'] = [
         ('facets', ['tri_t'], lambda m: [m.facets, m.t2f]),
@@ -423,6 +435,11 @@ def _ops():
         ('solve_cond_x', ['A1', 'x0'], lambda A, x: su.solve(*su.condense(A, ones(A), x=x, D=D))),
         ('solve_enf_x', ['A1', 'x0'], lambda A, x: su.solve(*su.enforce(A, ones(A), x=x, D=D))),
         ('solve_cond_keep', ['A1', 'x0'], lambda A, x: _solve_twice(su, A, x, D)),
+        # nothing to eliminate (a tag without facets), then the "reduced" system is constrained IN PLACE: the caller's own
+        # matrix and vector must not notice (a helper that hands its operands back as the result would let them)
+        ('cond_emptyD_then_enforce', ['A1', 'x0'], lambda A, x: _empty_then_inplace(su, A, x, 'enforce')),
+        ('cond_emptyD_then_penalize', ['A1', 'x0'], lambda A, x: _empty_then_inplace(su, A, x, 'penalize')),
+        ('cond_allI_then_enforce', ['A3', 'x0'], lambda A, x: _empty_then_inplace(su, A, x, 'enforce', use_I=True)),
     ]
     from skfem.models.elasticity import linear_elasticity
     from skfem.helpers import ddot, grad, sym_grad, transpose, dot
@@ -514,6 +531,19 @@ def _solve_twice(su, A, x, D):
     keep = y1.copy()
     y2 = su.solve(*su.condense(A, 2.0 * np.ones(A.shape[0]), x=x, D=D))
     return [keep, y1, y2]
+
+
+def _empty_then_inplace(su, A, x, how, use_I=False):
+    b = np.cos(np.arange(A.shape[0], dtype=float))
+    kw = {'I': np.arange(A.shape[0])} if use_I else {'D': np.array([], dtype=np.int64)}
+    K, f = su.condense(A, b, expand=False, **kw)[:2]
+    D2 = np.array([0, 3, 4])
+    if how == 'enforce':
+        su.enforce(K, f, x=x, D=D2, overwrite=True)
+    else:
+        su.penalize(K, f, x=x, D=D2, epsilon=2.0 ** -20, overwrite=True)
+    # the caller's system, used again afterwards
+    return [su.solve(A, b), A @ x]
 
 
 def _meshio_data(m):
